@@ -95,6 +95,10 @@ def make(debug, cells=None):
             setter(cell.row.index * 100 + cell.col.index)       # columns F-H answer from the coordinates handed over
     P.on('callCellValue', cell_listener)
     P.on('callRangeValue', lambda s, e, setter: setter(copy.deepcopy(RANGE) if s.col.index < 5 else [s.row.index, s.col.index, e.row.index, e.col.index]))
+    # onlookers: listeners that, for one name and one cell, run a complete evaluation on this same parser (with references of its own) and answer nothing
+    P.set_variable('v_look', 21)
+    P.on('callVariable', lambda name, setter: P.parse('F6+LEN("ab")') if name == 'v_look' else None)
+    P.on('callCellValue', lambda cell, setter: P.parse('H8*2') if cell.label == 'G9' else None)
     return P
 
 
@@ -192,7 +196,8 @@ def check_history(case):
             quiet_parse(P, h)
         # fixed facts (no reference parser involved): cells of columns F-H are answered from their coordinates
         # ... and a formula whose callbacks run a failing and then a succeeding evaluation on this same parser before the formula goes on
-        for p, w in (('F6', 505), ('H8', 707), ('G7+0', 606), ('SUM(F6:H8)', 5 + 5 + 7 + 7), ('SUM(H8:F6)', 24), ('INNERFAIL(1)&"/"&(LEN(INNEROK(1)&"..")*0)&"/"&F6&LEN("abc")', '#ERROR!/0/5053')):
+        for p, w in (('F6', 505), ('H8', 707), ('G7+0', 606), ('SUM(F6:H8)', 5 + 5 + 7 + 7), ('SUM(H8:F6)', 24), ('INNERFAIL(1)&"/"&(LEN(INNEROK(1)&"..")*0)&"/"&F6&LEN("abc")', '#ERROR!/0/5053'),
+                     ('v_look*2+1', 43), ('G9+0', 806), ('v_look&G9&v_look', '2180621')):        # (references watched by an onlooker that evaluates and answers nothing)
             g = quiet_parse(P, p)
             if g['error'] is not None or g['result'] != w:
                 raise Violation('after the history %r the parser evaluates %r to %r; its listener answers from the coordinates of the reference, which give %r' % (case['history'][:step + 1], p, g, w), g['error'] or enc(g['result']), w)
